@@ -20,6 +20,7 @@ RULE = (
     "(a=2^k, integer b on lattice scores) all rates at mapped thresholds are identical. W1: 12 score classes incl. ties, empty classes where "
     "defined, easy counts, 4 cfg, thresholds at/around scores and +-inf, targets in and out of range. Non-trivial: both classes non-empty; "
     "distinct = hash of inputs."
+    ' Build-phase additions: explicit unsorted group names under GroupScores.swap(), threshold_at_metric on an integer grid under negation (where no interior grid point is within 64 eps of a score).'
 )
 ASSUMPTIONS = ["finite scores, a > 0, |b| moderate", "threshold equivariance under negation for method='linear' only; EER equivariance for tie-free scores separated by > 1e-6*span"]
 METRICS = ["tpr", "fnr", "tnr", "fpr", "topr", "tonr"]
